@@ -463,3 +463,16 @@ def r11(ctx, R):
 def r12(ctx, R):
     from . import c08
     c08.r12(ctx, R)
+
+
+@rule('C07', 'C07.R13', 'with all_to_done every step of a block does the same number of iterations - provided the option the user set is the option that is used: no constructor rewrites its own parameters (in particular all_to_done / use_iteration_estimator) outside the tabled sites (shared with C20.R12)', floor=4)
+def r13(ctx, R):
+    from . import c20
+    c20.r12(ctx, R)
+
+
+@rule('C07', 'C07.R14', 'who is first and who is last in a block: restart_block derives first / last from the POSITION in the active block (a partially filled block still has a last step that nobody sends to; shared with C06.R6)', floor=8)
+def r14(ctx, R):
+    from . import c06
+    c06.r6(ctx, R)
+
